@@ -84,6 +84,30 @@ def runJson (c : Cfg) (outs : List Outcome) (r : Run) : Json :=
   ok (Json.mkObj [("res", resJson r.res), ("trace", arr (r.trace.map evJson)),
                   ("calls", toJson r.calls), ("max", toJson c.maxAttempts)]) tags
 
+/-- a key of an observed update: absent = untouched, null = deleted, value = set -/
+def updField {α} (j : Json) (k : String) (conv : Json → Except String α) : Except String (Option (Option α)) :=
+  match j.getObjVal? k with
+  | .error _ => .ok none
+  | .ok Json.null => .ok (some none)
+  | .ok v => (conv v).map (fun x => some (some x))
+
+def getUpdate (j : Json) : Except String Update := do
+  let us ← updField j "until" (fun v => v.getBool?)
+  let retries ← updField j "retries" (fun v => v.getInt?)
+  let onErr ← updField j "on_error" (fun v => v.getBool?)
+  let wait ← updField j "wait" (fun v => do let s ← v.getStr?; parseRat s)
+  let onTo ← updField j "on_timeout" (fun v => v.getBool?)
+  return ⟨us, retries, onErr, wait, onTo⟩
+
+def getAttempt (idx : Nat) (j : Json) : Except String Attempt := do
+  let k ← j.getObjValAs? String "k"
+  let kind ← kindOf k
+  let u ← match j.getObjVal? "upd" with
+    | .ok Json.null => pure (Update.mk none none none none none)
+    | .ok v => getUpdate v
+    | .error _ => pure (Update.mk none none none none none)
+  return ⟨⟨kind, idx⟩, u.apply⟩
+
 def handle (op : String) (a : Json) : Except String Json := do
   match op with
   | "run" =>
@@ -97,6 +121,17 @@ def handle (op : String) (a : Json) : Except String Json := do
     let us ← getBool a "reg_until"
     let r := runRegistered wrapped us p outs
     return runJson (cfg { p with ctorUntilSuccess := us }) outs r
+  | "task" =>
+    let p ← getParams a
+    let wrapped ← getBool a "wrapped"
+    let us ← getBool a "reg_until"
+    let shared ← getBool a "shared"
+    let invsJ ← getArr a "invocations"
+    let invs ← invsJ.mapM (fun ij => do
+      let atts ← ij.getArr?
+      atts.toList.zipIdx.mapM (fun (aj, i) => getAttempt i aj))
+    let runs := runTask wrapped us shared p invs
+    return ok (arr (runs.map (fun r => Json.mkObj [("res", resJson r.res), ("trace", arr (r.trace.map evJson)), ("calls", toJson r.calls)])))
   | _ => throw s!"unknown op {op}"
 
 end Drivers.Retry
